@@ -3,7 +3,8 @@
 import json, os, re, shutil, subprocess, sys
 pid, letter = sys.argv[1], sys.argv[2]
 extra = sys.argv[3:]
-src = "/tmp/seed/out-%s" % pid
+rnd = os.environ.get("SEED_ROUND", "1")
+src = ("/tmp/seed/out-%s" if rnd == "1" else "/tmp/seed/out" + rnd + "-%s") % pid
 patch, demo, notes = ["%s/%s%s%s" % (src, n, letter, e) for n, e in (("patch", ".diff"), ("demo", ".py"), ("notes", ".md"))]
 out = subprocess.run(["/verif/tools/seedtest.sh", pid, patch, demo] + extra, capture_output=True, text=True).stdout
 print(out[-3000:])
@@ -13,11 +14,11 @@ runs = re.findall(r"--- check (C\d+) quick seed (\d+) on changed tree\n(.*?)rc=(
 caught = {}
 for c, seed, body, rc in runs:
     caught.setdefault(c, []).append({"seed": int(seed), "rc": int(rc), "violation": (re.search(r"detail: (.*)", body).group(1)[:300] if "VIOLATION" in body else None)})
-dst = "/verif/seeded/%s-%s" % (pid, letter)
+dst = "/verif/seeded/%s-%s" % (pid, letter if rnd == "1" else {"A": "C", "B": "D"}[letter])
 os.makedirs(dst, exist_ok=True)
 shutil.copy(patch, dst + "/patch.diff"); shutil.copy(demo, dst + "/demo.py")
 if os.path.exists(notes): shutil.copy(notes, dst + "/notes.md")
-meta = {"property": pid, "author": "fresh sub-agent given only the property text and a scratch worktree",
+meta = {"property": pid, "author": "fresh sub-agent given only the property text and a scratch worktree" + ("" if rnd == "1" else " (round %s: also given the one-line summaries of the earlier seeded changes, to avoid repeats)" % rnd),
         "demo_exit_unchanged": int(d0.group(1)) if d0 else None, "demo_exit_changed": int(d1.group(1)) if d1 else None,
         "needs_to_manifest": "see notes.md",
         "ran": "tools/seedtest.sh %s patch.diff demo.py %s (scratch worktree of /repo HEAD + patch, ONSAGER_REPO=<worktree> ./check <id> --tier quick, seeds 1..3 until caught)" % (pid, " ".join(extra)),
